@@ -1,6 +1,7 @@
 package main
 
 import (
+	"sort"
 	"fmt"
 	"strconv"
 	"strings"
@@ -95,13 +96,27 @@ func genC13(g *Gen) {
 				}
 			}
 		}
+		// every key string in the other position too (a revision name as protocol version, "latest" spelled out): tables
+		// filed under a key of the wrong kind are reachable only this way
+		for _, v := range append([]string{"latest"}, revisions...) {
+			for _, r := range []string{"latest", "RP002-1.0.0", "1.0.3", "Z"} {
+				for dr := -1; dr <= 15; dr++ {
+					g.addf("bq %s - maxpl %s %s %d", k, v, r, dr)
+				}
+			}
+		}
 		for i := -1; i <= 16; i++ {
 			g.addf("bq %s - dr %d", k, i)
 			g.addf("bq %s - txpow %d", k, i)
 		}
 		// look a data-rate up by its parameters, both directions
-		for idx, d := range s.DataRates {
-			_ = idx
+		var drIdx []int
+		for idx := range s.DataRates {
+			drIdx = append(drIdx, idx)
+		}
+		sort.Ints(drIdx) // fixed order: the op list must be a function of the seed
+		for _, idx := range drIdx {
+			d := s.DataRates[idx]
 			for up := 0; up < 2; up++ {
 				g.addf("bq %s - dridx %d %d %d %d %d %d %d", k, up, modulationCode[d.DataRate.Modulation], d.DataRate.SpreadFactor, d.DataRate.Bandwidth, d.DataRate.BitRate,
 					codingRateCode[d.DataRate.CodingRate], d.DataRate.OccupiedChannelWidth)
